@@ -40,8 +40,10 @@ def past_program(rng):
             head = ('disj', rng.sample(atoms, 2))
         elif k < 0.75:
             head = ('choice', rng.sample(atoms, rng.randint(1, 2)))
-        else:
+        elif k < 0.85:
             head = ('cons',)
+        else:
+            head = ('tel', bool_head(rng, atoms))
         body = [past_lit(rng, atoms) for _ in range(rng.choice([0, 1, 1, 2, 2]) if head[0] != 'cons' else rng.choice([1, 2]))]
         if head[0] == 'cons' and all(l[1][0] == 'tel' and l[0] == 'p' for l in body):
             pass
@@ -49,6 +51,25 @@ def past_program(rng):
     if rng.random() < 0.7:
         rules.insert(0, {'part': rng.choice(['always', 'dynamic']), 'head': ('choice', atoms), 'body': []})
     return rules
+
+
+def bool_head(rng, atoms, depth=2):
+    """a rule head formula without temporal operators (Boolean connectives, constants, classical atoms): still a past-only program"""
+    if depth <= 0 or rng.random() < 0.3:
+        return rng.choice([('atom', rng.choice(atoms)), ('atom', rng.choice(atoms)), ('true',), ('false',)])
+    k = rng.random()
+    if k < 0.2:
+        return ('not', bool_head(rng, atoms, depth - 1))
+    return (rng.choice(['and', 'or', 'or']), bool_head(rng, atoms, depth - 1), bool_head(rng, atoms, depth - 1))
+
+
+# fixed programs: Boolean head formulas with constants; user externals with an initial truth value (both are past-only programs)
+FIXED = ['#program always.\n{ c }.\n&tel { a | &true } :- c.\n', '#program always.\n{ c }.\n&tel { a | &false } :- c.\n', '#program dynamic.\n{ c }.\n&tel { a & &true | b } :- \'c.\n',
+         '#program always.\n{ c; a }.\n&tel { ~ a | &false } :- c.\n', '#program initial.\n{ c }.\n&tel { a | &true }.\n#program dynamic.\n{ b }.\n&tel { (a | &true) & (c | b) } :- \'c.\n',
+         '#program always.\n{ c }.\n&tel { &true }.\n&tel { a | b | &false } :- not c.\n',
+         '#program always.\n#external e. [true]\n{ a }.\nb :- e, a.\nc :- not e.\n', '#program always.\n#external e. [free]\n{ a }.\nb :- e, \'a.\n', '#program dynamic.\n#external e. [true]\nb :- e.\nc :- \'b, not e.\n#program always.\n{ a }.\n',
+         '#program initial.\n#external e. [true]\nb :- e.\n#program dynamic.\nb :- \'b.\nc :- not \'b.\n', '#program always.\n#external e(1..2). [true]\n{ a }.\nb(X) :- e(X), a.\n:- b(1), not b(2).\n',
+         '#program always.\n#external e. [true]\n#external f.\n{ a }.\nb :- e, not f.\nc :- not not &tel { < b }.\n']
 
 
 def strip_final(text):
@@ -93,6 +114,39 @@ def prefix_violation(res, H):
     return None
 
 
+def cli_prefix(ctx, texts, H):
+    from props import c10
+    import tempfile, shutil
+    from concurrent.futures import ThreadPoolExecutor
+    tmp = tempfile.mkdtemp(prefix='c17_', dir=os.path.join(os.path.dirname(os.path.dirname(os.path.dirname(os.path.abspath(__file__)))), '_build'))
+
+    def one(it):
+        i, t = it
+        f = os.path.join(tmp, 'p%d.lp' % i)
+        open(f, 'w').write(t)
+        try:
+            rc, so, se = c10.run_cli([f], None, ['--imax=%d' % (H + 1), '--istop=unknown', '0'])
+        except c10.Slow:
+            return None
+        if 'Traceback' in se:
+            return {'aborts': se.strip().split('\n')[-1][:200]}
+        answers = c10.parse_text(so)
+        seen = {}
+        for a in answers:
+            seen.setdefault(len(a), set()).add(json.dumps([sorted(x) for _, x in a]))
+        for a in answers:
+            if len(a) >= 2:
+                cut = json.dumps([sorted(x) for _, x in a[:-1]])
+                if cut not in seen.get(len(a) - 1, set()):
+                    return {'printed_answer': [[k, sorted(x)] for k, x in a], 'prefix_not_printed_with_states': len(a) - 1}
+        return None
+    try:
+        with ThreadPoolExecutor(8) as ex:
+            return list(ex.map(one, enumerate(texts)))
+    finally:
+        shutil.rmtree(tmp, ignore_errors=True)
+
+
 def run(ctx):
     H = 3 if ctx.quick else 4
     rng = ctx.rng('programs')
@@ -123,6 +177,19 @@ def run(ctx):
         elif 'ok' in r and r['ok'].get(HL):
             nontriv.add(t[0])
     inputs = inputs + linputs
+    finputs = [[t] for t in FIXED]
+    for t, r in zip(finputs, meta.answer_sets(ctx, finputs, HL, timeout=60)):
+        v = prefix_violation(r, HL)
+        if v:
+            cex.append({'key': 'c17:' + t[0].replace('\n', ' '), 'what': 'prefix property fails: ' + json.dumps(v), 'input': {'texts': t, 'H': HL}})
+        elif 'ok' in r and r['ok'].get(HL):
+            nontriv.add(t[0])
+    inputs = inputs + finputs
+    # the same property on what the command line tool prints: the first h+1 states of every answer printed with h+2 states were printed as an answer before
+    cli = [t[0] for t in linputs[:(12 if ctx.quick else 60)]] + FIXED[:3] + FIXED[6:8]
+    for t, v in zip(cli, cli_prefix(ctx, cli, 3)):
+        if v:
+            cex.append({'key': 'c17:cli:' + t.replace('\n', ' '), 'what': 'prefix property fails on the printed answers: ' + json.dumps(v), 'input': {'texts': [t], 'H': 3, 'cli': True}})
     exs = examples()
     nex = 0
     for name, texts, eh in exs:
@@ -134,7 +201,7 @@ def run(ctx):
         elif 'ok' in r and r['ok'].get(eh):
             nontriv.add(name)
     cov = {'evaluations': len(inputs) + nex, 'distinct_nontrivial': len(nontriv),
-           'rule': 'random past-only programs (1-4 rules + choice generator; past atoms, _p, &initial, &tel bodies over past operators only; a share of them with one free atom per state run for 7 steps) and %d shipped examples without their final '
+           'rule': 'random past-only programs (1-4 rules + choice generator; past atoms, _p, &initial, &tel bodies over past operators only; Boolean head formulas with constants; a share of them with one free atom per state run for 7 steps; fixed programs with constants in head formulas and user externals with an initial value; the printed answers of the command line tool for a share of them) and %d shipped examples without their final '
                    'part; horizons 0..%d of one incremental run; every answer set at h+1 is cut to its first h+1 states and looked up among the answer sets at h; non-trivial = program '
                    'with at least one answer set at the largest horizon' % (nex, H),
            'answer_sets_checked': sum(sum(len(v) for v in r['ok'].values()) for r in res if 'ok' in r),
@@ -144,5 +211,7 @@ def run(ctx):
 
 def replay(ctx, payload):
     inp = payload['input']
+    if inp.get('cli'):
+        return cli_prefix(ctx, inp['texts'], inp.get('H', 3))[0] is not None
     r = meta.answer_sets(ctx, [inp['texts']], inp.get('H', 4), timeout=120)[0]
     return prefix_violation(r, inp.get('H', 4)) is not None
